@@ -26,6 +26,7 @@ type feat struct {
 	OBS     int // output_buffer_size: -1, 0 (default), 64 .. 65536
 	OBT     int // output_buffer_timeout ms: -1, 0 (default), 25 .. 30000
 	HB      int // heartbeat_interval ms: -1 or >= 1000
+	MsgTO   int  // msg_timeout ms (0 = daemon default)
 	NoID    bool // skip IDENTIFY altogether (daemons whose max-body-size is below an IDENTIFY body)
 }
 
@@ -206,6 +207,9 @@ func dial(addr string, f feat) (*client, error) {
 		"client_id": "wiredrive", "hostname": "h", "feature_negotiation": true, "user_agent": "wiredrive",
 		"tls_v1": f.TLS, "snappy": f.Snappy, "deflate": f.Deflate > 0, "deflate_level": f.Deflate,
 		"output_buffer_size": f.OBS, "output_buffer_timeout": f.OBT, "heartbeat_interval": f.HB,
+	}
+	if f.MsgTO > 0 {
+		id["msg_timeout"] = f.MsgTO
 	}
 	body, _ := json.Marshal(id)
 	if err := c.send("IDENTIFY", body); err != nil {
